@@ -1,7 +1,161 @@
+(* C47 Resource estimation composes additively.
+   Statements only; every proof is `exact <lemma>` from Disc/EstimatorProofs.v.
+   All statements hold for EVERY decomposition oracle D (what the operator classes return), gate set gs,
+   fuel bound f, workflow and allocate/free history. *)
 From Coq Require Import List ZArith Bool.
 From PLV Require Import Disc.EstimatorModel Disc.EstimatorProofs.
 Import ListNotations.
 Open Scope Z_scope.
-Theorem total_def' : forall m, total m = zeroed m + any_state m + algo m.
-Proof. exact total_def. Qed.
-Print Assumptions total_def'.
+
+(* the count of every gate x in a successful estimate is the pure weight of the workflow:
+   sum over (operator, scalar) of scalar * (occurrences of x in the expansion of the operator);
+   in particular it does not depend on the wire budget *)
+Theorem estimate_counts_are_weights : forall D gs f w z a tb s x,
+  estimate D gs f w z a tb = Ok s -> count_of (cnt s) x = weight D gs f (wf_items w) x.
+Proof. exact estimate_counts. Qed.
+Print Assumptions estimate_counts_are_weights.
+
+(* gate counts of a workflow = sum of the counts of its parts (any entry points whose operator
+   sequences concatenate; the three estimates may even use three different wire budgets).
+   The success hypotheses are needed: with a tight budget estimate(w2) alone may raise although
+   estimate(w1 ++ w2) succeeds (w1 can free wires that w2 grabs). *)
+Theorem estimate_additive : forall D gs f w1 w2 w12 z1 a1 t1 z2 a2 t2 z a t s1 s2 s12,
+  wf_items w12 = wf_items w1 ++ wf_items w2 ->
+  estimate D gs f w12 z a t = Ok s12 ->
+  estimate D gs f w1 z1 a1 t1 = Ok s1 ->
+  estimate D gs f w2 z2 a2 t2 = Ok s2 ->
+  forall x, count_of (cnt s12) x = count_of (cnt s1) x + count_of (cnt s2) x.
+Proof. exact estimate_additive_lem. Qed.
+Print Assumptions estimate_additive.
+
+(* the loop over the workflow composes sequentially: the estimate of w1 ++ w2 is the estimate of
+   w2 continued from the state (counts and wire manager) reached after w1, errors included *)
+Theorem estimate_sequential : forall D gs f w1 w2 s,
+  est_items D gs f (w1 ++ w2) s =
+  match est_items D gs f w1 s with Ok s1 => est_items D gs f w2 s1 | Err e => Err e end.
+Proof. exact est_items_app. Qed.
+Print Assumptions estimate_sequential.
+
+(* a successful estimate of a workflow implies a successful estimate of each prefix (same budget) *)
+Theorem estimate_prefix_ok : forall D gs f w1 w12 z a t s12,
+  (exists rest, wf_items w12 = wf_items w1 ++ rest) -> wf_algo w12 = wf_algo w1 ->
+  estimate D gs f w12 z a t = Ok s12 ->
+  exists s1, estimate D gs f w1 z a t = Ok s1.
+Proof. exact estimate_prefix_lem. Qed.
+Print Assumptions estimate_prefix_ok.
+
+(* n copies of a workflow have n times its gate counts *)
+Theorem estimate_repeat : forall D gs f n w wn z1 a1 t1 z a t s1 sn,
+  wf_items wn = rep n (wf_items w) ->
+  estimate D gs f wn z a t = Ok sn ->
+  estimate D gs f w z1 a1 t1 = Ok s1 ->
+  forall x, count_of (cnt sn) x = Z.of_nat n * count_of (cnt s1) x.
+Proof. exact estimate_repeat_lem. Qed.
+Print Assumptions estimate_repeat.
+
+(* multiplying the scalar of an operator (n * op in a Resources object) multiplies its counts *)
+Theorem estimate_scalar : forall D gs f r n k al al' z1 a1 t1 z a t s1 sn,
+  estimate D gs f (WR al [(r, n * k)]) z a t = Ok sn ->
+  estimate D gs f (WR al' [(r, k)]) z1 a1 t1 = Ok s1 ->
+  forall x, count_of (cnt sn) x = n * count_of (cnt s1) x.
+Proof. exact estimate_scalar_lem. Qed.
+Print Assumptions estimate_scalar.
+
+(* ---- WireResourceManager over arbitrary allocate/free histories ---- *)
+
+(* auxiliary-wire bookkeeping never goes negative (non-negative request sizes) *)
+Theorem wires_never_negative : forall h m m',
+  0 <= zeroed m -> 0 <= any_state m -> Forall req_nonneg h -> run_hist h m = Some m' ->
+  0 <= zeroed m' /\ 0 <= any_state m'.
+Proof. exact wires_never_negative_lem. Qed.
+Print Assumptions wires_never_negative.
+
+(* ... and an error is raised exactly at the first request that meets a raise condition:
+   grab_zeroed beyond the zeroed wires under a tight budget, free_wires beyond any_state *)
+Theorem wires_error_exactly : forall h m,
+  run_hist h m = None <->
+  exists h1 r h2 m1, h = h1 ++ r :: h2 /\ run_hist h1 m = Some m1 /\
+    match r with
+    | RGrab n => tight m1 = true /\ zeroed m1 < n
+    | RFree n => any_state m1 < n
+    end.
+Proof. exact wires_error_exactly_lem. Qed.
+Print Assumptions wires_error_exactly.
+
+(* reported total >= algorithmic wires, which the manager never changes *)
+Theorem total_ge_algo : forall h m m',
+  0 <= zeroed m -> 0 <= any_state m -> Forall req_nonneg h -> run_hist h m = Some m' ->
+  algo m' = algo m /\ algo m' <= total m'.
+Proof. exact total_ge_algo_lem. Qed.
+Print Assumptions total_ge_algo.
+
+(* the reported work wires (zeroed + any_state) are exactly max(pre-allocated work wires, peak
+   number of simultaneously outstanding allocated wires); any_state is the net allocation.
+   Hence every allocation is covered: after EVERY prefix of the history the outstanding wires fit. *)
+Theorem total_accounts_all_allocs : forall h m m',
+  0 <= zeroed m -> 0 <= any_state m -> Forall req_nonneg h -> run_hist h m = Some m' ->
+  zeroed m' + any_state m' = Z.max (zeroed m + any_state m) (peak h (any_state m)) /\
+  any_state m' = any_state m + net h /\
+  forall h1 h2, h = h1 ++ h2 -> any_state m + net h1 <= total m' - algo m'.
+Proof. exact total_accounts_all_allocs_lem. Qed.
+Print Assumptions total_accounts_all_allocs.
+
+(* ---- the estimator drives the manager by exactly such a history ---- *)
+
+(* an estimate succeeds iff its pure request trace exists (all decompositions defined) and the
+   manager accepts that history: errors are raised exactly when the code raises *)
+Theorem estimate_ok_iff_trace_accepted : forall D gs f w z a tb,
+  (exists s, estimate D gs f w z a tb = Ok s) <->
+  (exists h m, trace_items D gs f (wf_items w) = Some h /\ run_hist h (mkWM z a (wf_algo w) tb) = Some m).
+Proof. exact estimate_ok_iff_lem. Qed.
+Print Assumptions estimate_ok_iff_trace_accepted.
+
+(* for non-negative oracles (counts, allocation sizes), zero-control numbers and scalars, the wire
+   results of every successful estimate satisfy all of the above *)
+Theorem estimate_wires : forall D gs f w z a tb s,
+  oracle_ok D -> items_ok (wf_items w) -> 0 <= z -> 0 <= a ->
+  estimate D gs f w z a tb = Ok s ->
+  exists h, trace_items D gs f (wf_items w) = Some h /\ Forall req_nonneg h /\
+    run_hist h (mkWM z a (wf_algo w) tb) = Some (wm s) /\
+    0 <= zeroed (wm s) /\ 0 <= any_state (wm s) /\
+    algo (wm s) = wf_algo w /\ algo (wm s) <= total (wm s) /\
+    zeroed (wm s) + any_state (wm s) = Z.max (z + a) (peak h a) /\
+    any_state (wm s) = a + net h.
+Proof. exact estimate_wires_lem. Qed.
+Print Assumptions estimate_wires.
+
+(* ---- non-vacuity: a concrete oracle, workflow and budget meeting the hypotheses ---- *)
+(* code 0 = T (no decomposition, in the gate set), 1 = an operator allocating 2 wires, using 3 T, freeing 1 *)
+Definition exD : oracle :=
+  mkOracle (fun c => c)
+           (fun c => if c =? 1 then DList [AAlloc 2; AGate (Base 0) 3; ADealloc 1] else DRaise)
+           (fun _ => DNone) (fun _ _ _ => DNone) (fun _ _ => DNone) 0.
+
+Example hyps_satisfiable :
+  oracle_ok exD /\ items_ok [(Base 1, 2); (Adj (Base 0), 1)] /\
+  exists s, estimate exD [NBase 0; NAdj (NBase 0)] 5 (WR 4 [(Base 1, 2); (Adj (Base 0), 1)]) 1 0 false = Ok s /\
+            cnt s = [(Base 0, 6); (Adj (Base 0), 1)] /\
+            zeroed (wm s) = 2 /\ any_state (wm s) = 2 /\ total (wm s) = 8.
+Proof.
+  split.
+  - unfold oracle_ok, exD; simpl. repeat split; intros; try exact I.
+    destruct (c =? 1); simpl; auto. repeat constructor; simpl; auto; discriminate.
+  - split.
+    + repeat constructor; simpl; auto; discriminate.
+    + eexists. vm_compute. repeat split; reflexivity.
+Qed.
+
+Example additivity_instance :
+  forall x, match estimate exD [NBase 0] 5 (WR 0 [(Base 1, 2); (Base 0, 1)]) 0 0 false,
+                  estimate exD [NBase 0] 5 (WR 0 [(Base 1, 2)]) 9 0 true,
+                  estimate exD [NBase 0] 5 (WR 0 [(Base 0, 1)]) 0 0 false with
+            | Ok s12, Ok s1, Ok s2 => count_of (cnt s12) x = count_of (cnt s1) x + count_of (cnt s2) x
+            | _, _, _ => False
+            end.
+Proof.
+  intros x.
+  destruct (estimate exD [NBase 0] 5 (WR 0 [(Base 1, 2); (Base 0, 1)]) 0 0 false) as [s12|] eqn:E12; [|vm_compute in E12; discriminate].
+  destruct (estimate exD [NBase 0] 5 (WR 0 [(Base 1, 2)]) 9 0 true) as [s1|] eqn:E1; [|vm_compute in E1; discriminate].
+  destruct (estimate exD [NBase 0] 5 (WR 0 [(Base 0, 1)]) 0 0 false) as [s2|] eqn:E2; [|vm_compute in E2; discriminate].
+  eapply estimate_additive; [|exact E12|exact E1|exact E2]. reflexivity.
+Qed.
